@@ -210,6 +210,27 @@ impl<'a, P: ?Sized + PathImpl> PathMutImpl<'a, P> {
 		}
 	}
 
+	/// Removes the leading empty segments of the path, along with the `.`
+	/// segment protecting them, if any.
+	pub(crate) fn remove_leading_empty_segments(&mut self) {
+		let start = self.first_segment_offset();
+		let mut i = start;
+
+		if self.buffer[i..self.end].starts_with(b"./") {
+			i += 2;
+		}
+
+		let protected = i;
+		while i < self.end && self.buffer[i] == b'/' {
+			i += 1
+		}
+
+		if i > protected || (protected > start && i == self.end) {
+			replace(self.buffer, start..i, b"");
+			self.end -= i - start;
+		}
+	}
+
 	#[inline]
 	pub fn normalize(&mut self) {
 		self.normalize_with(false)
